@@ -224,7 +224,7 @@ func genLegacy(r *fw.Rand, lib *legacyLib) ([]byte, string) {
 		return n.uuid, "A"
 	}
 
-	var ass, rss []any
+	ass, rss := []any{}, []any{}
 	for i := 0; i < na; i++ {
 		d, _ := pickDest()
 		nact := r.Range(0, 4)
